@@ -495,7 +495,7 @@ def run_chunk(chunk_id, payload):
 def main():
     chk = R.Check(PROP)
     binary = chk.build("asan")
-    total = 400 if chk.tier == "quick" else 20000
+    total = 2000 if chk.tier == "quick" else 20000
     total = max(16, int(total * chk.args.scale))
     nchunks = 16 if chk.tier == "quick" else 64
     per = (total + nchunks - 1) // nchunks
